@@ -21,6 +21,8 @@ BlanksMid == {1}
 BlanksEnd == {0}
 Headers == {0}
 Orders == 1
+Col0Comments == FALSE
+CommentStyles == {"none"}
 VARIABLES file, expect, meta
 P == INSTANCE Pbn
 
